@@ -10,6 +10,7 @@ from ..core import Checker
 from ..effects import destructive_kind
 from ..loader import AnalysisError, Func, norm, parent, walk_expr, walk_own
 from ..prov import ELEM, ITEM, attr_chain, call_name, expand, get_arg, is_marker, scope_of
+from .generic_lints import run_all as _lints
 
 
 def tree_iter_arity(ck: Checker) -> int:
@@ -89,6 +90,7 @@ def _param_unassigned(fn: Func, name: str) -> bool:
 
 
 def check(ck: Checker) -> None:
+    _lints(ck, "C06.aliasing", "hashfile.gc")
     prog, res = ck.prog, ck.res
     ck.decided = [
         "C06.arity: every iteration over a Tree in gc unpacks as many values as Tree.__iter__ yields",
